@@ -116,9 +116,20 @@ func hexdump(b []byte, max int) string {
 // body explores one model font.  The model fonts are built once per process
 // and only read afterwards (Drive, Generate and Expected do not modify them).
 func body(items []t1model.Item, sc t1gen.Scope) func(c *mc.Ctx, item int) mc.Verdict {
+	return bodyWith(items, sc, 0)
+}
+
+// bodyWith: with containers > 0 the item number also fixes the container
+// (item = font x container) and every other decision is the default.
+func bodyWith(items []t1model.Item, sc t1gen.Scope, containers int) func(c *mc.Ctx, item int) mc.Verdict {
 	return func(c *mc.Ctx, item int) mc.Verdict {
+		var ch t1gen.Chooser = c
+		if containers > 0 {
+			ch = &pick{first: item % containers}
+			item /= containers
+		}
 		m := items[item].Font
-		opt := t1gen.Drive(c, m, sc)
+		opt := t1gen.Drive(ch, m, sc)
 		data, err := t1gen.Generate(m, opt)
 		if err != nil {
 			panic("harness: generator refused its own options: " + err.Error())
@@ -198,6 +209,66 @@ func body(items []t1model.Item, sc t1gen.Scope) func(c *mc.Ctx, item int) mc.Ver
 	}
 }
 
+// largeFonts: fonts whose size is in the number of glyphs and path segments, not
+// in their variety: the reader's bounds on the work a font may cost count
+// operators, and a font of a few megabytes made of ordinary glyphs is far below
+// them however many operands its commands carry.
+func largeFonts() []t1model.Item {
+	mk := func(label string, glyphs, segs int, curves bool) t1model.Item {
+		gs := []*t1model.Glyph{{Name: ".notdef", Sbx: t1model.I(0), Sby: t1model.I(0), WidthX: t1model.I(250), WidthY: t1model.I(0)}}
+		for i := 0; i < glyphs; i++ {
+			g := &t1model.Glyph{Name: fmt.Sprintf("g%04d", i), Sbx: t1model.I(0), Sby: t1model.I(0), WidthX: t1model.I(int64(500 + i%7)), WidthY: t1model.I(0)}
+			c := t1model.Contour{Start: t1model.P(0, int64(i%50))}
+			x, y := int64(0), int64(i%50)
+			for k := 0; k < segs; k++ {
+				d := int64(1)
+				if k%2 == 1 {
+					d = -1
+				}
+				if curves {
+					c.Segs = append(c.Segs, t1model.C(x+1, y+int64(k%3), x+2, y+d, x+3+int64(i%2), y+d))
+					x, y = x+3+int64(i%2), y+d
+				} else {
+					c.Segs = append(c.Segs, t1model.L(x+1+int64(k%4), y+d))
+					x, y = x+1+int64(k%4), y+d
+				}
+			}
+			g.Contours = []t1model.Contour{c}
+			gs = append(gs, g)
+		}
+		return t1model.Item{Font: t1model.NewFont(label, gs...), Group: t1model.GroupMulti}
+	}
+	return []t1model.Item{
+		mk("large: 3 glyphs of 9000 curves", 3, 9000, true),
+		mk("large: 70 glyphs of 9000 curves (630,000 operators, 4.4 million charstring tokens)", 70, 9000, true),
+		mk("large: 2000 glyphs of 40 lines", 2000, 40, false),
+		mk("large: 9000 glyphs of 160 lines (1.5 million operators, 4.4 million charstring tokens)", 9000, 160, false),
+	}
+}
+
+// pick answers the first Deviate with a fixed value and every later one with 0.
+type pick struct {
+	first int
+	used  bool
+}
+
+func (p *pick) Deviate(n int) int {
+	if !p.used {
+		p.used = true
+		if p.first < n {
+			return p.first
+		}
+	}
+	return 0
+}
+
+type pickCtx struct {
+	*mc.Ctx
+	p *pick
+}
+
+func (p pickCtx) Deviate(n int) int { return p.p.Deviate(n) }
+
 // altCount is the number of single deviations of a font under a scope.
 type counter struct{ n int }
 
@@ -244,6 +315,7 @@ func main() {
 			describe := func(items []t1model.Item) func(int) string {
 				return func(i int) string { return items[i].Font.Describe() }
 			}
+			large := largeFonts()
 			budget := 50 * time.Second
 			multiScope, multiScopeText := flexOnly, "global and per-glyph decisions plus flex at every legal position (the per-command form and number decisions of every outline are explored in single-glyph-fonts; thorough explores them here as well)"
 			if tier == "thorough" {
@@ -282,6 +354,15 @@ func main() {
 					CrashKey: func(int) string { return "C06:crash:dictionary-fonts" },
 					Rule: fmt.Sprintf("item = one of %d model fonts varying the dictionaries: %d interesting byte strings x 6 FontInfo fields, Private values present/absent/default/non-default, custom encodings, 8 creation dates, FontInfo numbers, FontMatrix, font name; "+
 						"global and per-glyph decisions (no per-command decisions), <= 2 deviations (thorough: 3); non-trivial as above", len(dict), len(t1model.InterestingStrings)),
+				},
+				{
+					Name: "large-fonts", Items: len(large) * t1gen.NumContainers, Budget: budget, HangSeconds: 300,
+					Body: bodyWith(large, t1gen.Scope{Global: true}, t1gen.NumContainers),
+					Describe: func(i int) string {
+						return large[i/t1gen.NumContainers].Font.Describe() + " / " + t1gen.ContainerName(i%t1gen.NumContainers)
+					},
+					CrashKey: func(int) string { return "C06:crash:large-fonts" },
+					Rule:     fmt.Sprintf("item = one of %d fonts made of many ordinary glyphs (3 and 70 glyphs of 9000 curves each, 2000 glyphs of 40 lines, 9000 glyphs of 160 lines: files of up to 9 MB, up to 1.5 million charstring operators and 4.4 million charstring tokens) x %d containers, every other decision the default; read and compared field by field like every other font; non-trivial as above", len(large), t1gen.NumContainers),
 				},
 			}
 			if tier == "thorough" {
